@@ -103,6 +103,9 @@ func (p propC04) Gen(r *Rng, tier string) *World {
 	full := Plan{Bind: g.Binding()}
 	w.Calls = []Plan{full}
 	w.Extra = map[string]string{}
+	if tier == "thorough" {
+		w.Extra["deep"] = "1" // more completions per definite answer
+	}
 	if r.P(0.25) {
 		w.Extra["fresh_ctx"] = "1" // a new Ctx per call instead of one per request
 	}
@@ -258,6 +261,9 @@ func (pr propC04) Run(w *World, st *Stats) *Violation {
 			c := mw.Clone()
 			c.EnumSplits = false
 			c.Extra = map[string]string{"unavail": strings.Join(unavail, ",")}
+			if w.Extra["deep"] == "1" {
+				c.Extra["deep"] = "1"
+			}
 			if w.Extra["fresh_ctx"] == "1" {
 				c.Extra["fresh_ctx"] = "1"
 			}
@@ -445,8 +451,11 @@ func (pr propC04) Run(w *World, st *Stats) *Violation {
 				}
 			}
 			capN := 48
+			if w.Extra["deep"] == "1" {
+				capN = 256
+			}
 			if len(definite) > 24 || fault >= 0 {
-				capN = 12
+				capN /= 4
 			}
 			exhaustive := total <= capN
 			tries := total
